@@ -362,6 +362,10 @@ class Model:
         if name in self.globals:
             v = self.globals[name]
             return v
+        if name in self.func_contracts:
+            # a module-level function under contract: calls go through its contract, never its body
+            c = self.func_contracts[name]
+            return Builtin(name, lambda it2, a, k, c=c: it2.model.call_contract(it2, c, None, a, k))
         if name in self.inline_sources:
             rel, q = self.inline_sources[name]
             fs = find_function(rel, q)
